@@ -50,7 +50,7 @@ def worker(k):
         res[sid] = out
         print(sid, {p: (r['rc'], 'nofail' if any('no-failing' in l for l in r['lines']) else '') for p, r in out.items() if isinstance(r, dict)}, flush=True)
         json.dump(res, open(OUT, 'w'), indent=1)
-ts = [threading.Thread(target=worker, args=(k,)) for k in range(4)]
+ts = [threading.Thread(target=worker, args=(k,)) for k in range(5)]
 for t in ts: t.start()
 for t in ts: t.join()
 print('MX-DONE')
